@@ -120,6 +120,16 @@ Theorem C01_engine_output_evaluates :
 Proof. exact engine_output_evaluates. Qed.
 Print Assumptions C01_engine_output_evaluates.
 
+(** (3d) Why gluing is unambiguous: in the token sequence of ANY expression no two
+    string values are adjacent (between the tokens of two sub-expressions there is
+    always a bracket, comma, colon, = or name) - Python's implicit concatenation of
+    adjacent literals can only ever merge the pieces of ONE value, which is what
+    Glue does. *)
+From PP Require Import ExprSep.
+Theorem C01_no_adjacent_string_values : forall e : expr, noadj (etoks e) = true.
+Proof. exact etoks_noadj. Qed.
+Print Assumptions C01_no_adjacent_string_values.
+
 (** Non-vacuity: a bytes value split over two lines inside a list at width 12
     (no line shorter than the 10-column floor) - the raw tokens are the
     bracket, two  b'..'  pieces, the bracket. *)
